@@ -1442,7 +1442,15 @@ pub fn run_parent(mode: &str, seed: u64, histories: u64, children: usize, sweep:
     let mut mismatches = 0u32;
     for (child, report) in procs {
         let status = match child {
-            Ok(mut c) => c.wait().ok(),
+            Ok(mut c) => {
+                let st = crate::common::wait_with_deadline(&mut c, 3600);
+                if st.is_none() {
+                    batch.harness_error = Some("an env child did not finish within an hour and was killed".into());
+                    let _ = std::fs::remove_file(&report);
+                    continue;
+                }
+                st
+            }
             Err(e) => {
                 batch.harness_error = Some(format!("cannot spawn env child: {e}"));
                 continue;
@@ -1658,6 +1666,10 @@ pub fn c17std_main(report: &str) -> i32 {
             return 2;
         }
     };
+    let progress = |what: &str| {
+        let _ = std::fs::write(format!("{report}.progress"), what);
+    };
+    progress("all colour pairs x data strings x the four std handles (regular file)");
     let big: Vec<u8> = (0..3000u32).map(|i| if i % 97 == 96 { b'\n' } else { b'a' + (i % 26) as u8 }).collect();
     let mut evals = 0u64;
     let mut violation = Value::Null;
@@ -1677,6 +1689,7 @@ pub fn c17std_main(report: &str) -> i32 {
     // frame-size thresholds: a frame is <codes><data><reset>, so a buffer of size T inside a
     // stream impl shows at data lengths a little *below* T.  Scan the lengths around the usual
     // buffer sizes on every std handle, with short and long colour codes.
+    progress("frame-size threshold scan on the four std handles (regular file)");
     if violation.is_null() {
         let pattern: Vec<u8> = (0..70_000u32).map(|i| if i % 61 == 60 { b'\n' } else { b'A' + (i % 26) as u8 }).collect();
         'scan: for handle in 0..4u8 {
@@ -1701,6 +1714,7 @@ pub fn c17std_main(report: &str) -> i32 {
     // /dev/full (every write fails with ENOSPC) for one coloured write, then at the file again for
     // the next one.  The first must fail, the second must deliver exactly its own frame (nothing
     // left over from the failed call), and a File on /dev/full must report the failure too.
+    progress("coloured writes onto /dev/full through Stderr, StderrLock and File, then a healthy write");
     if violation.is_null() {
         if let Ok(full) = std::fs::OpenOptions::new().write(true).open("/dev/full") {
             use anstyle_wincon::WinconStream;
@@ -1768,6 +1782,7 @@ pub fn c17std_main(report: &str) -> i32 {
     // buffer is nearly full accepts only a prefix of a large payload (and nothing of what follows).
     // Whatever the call returns, what arrived on the other end must be a legal frame: complete
     // (<codes><n data bytes><reset>) if it returned Ok(n), a prefix of such a frame if it failed.
+    progress("a File over a non-blocking socket whose send buffer is nearly full (real short write, then EAGAIN)");
     if violation.is_null() {
         for (fg, bg) in [(3u8, 0u8), (12, 4)] {
             evals += 1;
@@ -1790,7 +1805,31 @@ pub fn c17std_main(report: &str) -> i32 {
     0
 }
 
-pub fn c17std_replay(_doc: &Value, path: &str) -> i32 {
+pub fn c17std_replay(doc: &Value, path: &str) -> i32 {
+    if doc.get("violation_class").and_then(|x| x.as_str()) == Some("no-progress") {
+        // a call that never returns: replay in a child that can be killed
+        let report = format!("{}/target/tmp/c17std-replay-{}.json", crate::report::verif_root(), std::process::id());
+        let _ = std::fs::create_dir_all(format!("{}/target/tmp", crate::report::verif_root()));
+        let limit = std::env::var("VERIF_C17_STD_TIMEOUT_S").ok().and_then(|s| s.parse().ok()).unwrap_or(600u64);
+        let st = std::process::Command::new(std::env::current_exe().expect("current_exe"))
+            .args(["c17std", &report])
+            .stdin(std::process::Stdio::null())
+            .stdout(std::process::Stdio::null())
+            .spawn()
+            .ok()
+            .and_then(|mut c| crate::common::wait_with_deadline(&mut c, limit));
+        let progress = std::fs::read_to_string(format!("{report}.progress")).unwrap_or_default();
+        let _ = std::fs::remove_file(format!("{report}.progress"));
+        let _ = std::fs::remove_file(&report);
+        return if st.is_none() {
+            println!("replay: class=no-progress\n  the std-handle child did not finish within {limit} s; it was in: {}", progress.trim());
+            println!("VIOLATION property=C17 replay={path}");
+            1
+        } else {
+            println!("replay: no violation");
+            0
+        };
+    }
     // the whole std-handle suite is deterministic and takes a fraction of a second: re-run it
     let saved = unsafe { libc::dup(1) };
     let mut out = unsafe { File::from_raw_fd(saved) };
